@@ -113,5 +113,6 @@ pub fn c08(a: &Args) {
         out.query("atomic", &format!("0 {} | ", (1..=n).map(|c| c.to_string()).collect::<Vec<_>>().join(" ")), &sets.iter().map(|s| s.iter().map(|x| x.to_string()).collect::<Vec<_>>().join(" ")).collect::<Vec<_>>().join(";"));
     }
     crate::cli_props::cli_pass(a, &mut out, &mut rng, &["atomic-sets", "anomalies"]);
-    out.finish("(+ CLI pass: the rebuilt binary's `atomic-sets / anomalies` on a sample of the models, judged by the same oracles) every model of the C01 space x satisfiable assumption lists of length 0..3 x candidate subsets (all for n<=4 in thorough / 40% in quick, random beyond, and the default 'all features') x {plain, cross} vs brute-force classes of literals with equal value in every model containing A (classes with >=2 members, members ascending; cross: up to negating all members); library and stream; the model (without sample prefilter) must give the identical report");
+    crate::shifted_props::shifted(a, &mut out, &mut rng, &["atomic"]);
+    out.finish("(+ renumbered models: features base+1..base+n for base 126 / 254 / 1020, judged by the small model's truth table: atomic) (+ CLI pass: the rebuilt binary's `atomic-sets / anomalies` on a sample of the models, judged by the same oracles) every model of the C01 space x satisfiable assumption lists of length 0..3 x candidate subsets (all for n<=4 in thorough / 40% in quick, random beyond, and the default 'all features') x {plain, cross} vs brute-force classes of literals with equal value in every model containing A (classes with >=2 members, members ascending; cross: up to negating all members); library and stream; the model (without sample prefilter) must give the identical report");
 }
